@@ -2,6 +2,7 @@ package mon
 
 import (
 	"context"
+	"errors"
 	"fmt"
 	"math/rand/v2"
 	"sort"
@@ -459,7 +460,32 @@ func runC17(r *kit.Run) {
 				}
 			case 3:
 				var h *dt.Heap[kv]
-				if rng.IntN(2) == 0 {
+				if mode := rng.IntN(5); mode == 0 && len(in) >= 2 {
+					// the source fails part-way: the constructor reports it, and the
+					// heap it hands back holds what was read; the caller goes on with it
+					k := 1 + rng.IntN(len(in)-1)
+					boom := errors.New("source failed")
+					var i int
+					src := fun.Generator(func(context.Context) (kv, error) {
+						if i >= k {
+							return kv{}, boom
+						}
+						i++
+						return in[i-1], nil
+					})
+					var err error
+					h, err = dt.NewHeapFromIterator(context.Background(), cm.lt, src)
+					if !errors.Is(err, boom) {
+						viol("constructor", fmt.Sprintf("NewHeapFromIterator over a source that fails after %d items returned %v", k, err))
+						return
+					}
+					if h == nil || h.Len() != k {
+						return // what a failed construction hands back is not specified further
+					}
+					for _, x := range in[k:] {
+						h.Push(x)
+					}
+				} else if mode <= 2 {
 					var err error
 					h, err = dt.NewHeapFromIterator(context.Background(), cm.lt, fun.SliceIterator(append([]kv(nil), in...)))
 					if err != nil {
